@@ -41,7 +41,7 @@ and whether it returned; channel occupancy is the difference of two counters):
   task waits for `cores v` of `max` slots, runs, releases them and only then offers `Done`, with
   head-of-queue forwarding (`Model/NetSlots.lean`) — by projecting stuck states onto the counting model; the
   abstraction "a created task always becomes forwardable" is thereby a theorem, given `cores v ≤ max`.
-* `c05_channel_ops_no_deadlock` / `_runs_are_finite` / `_complete` / `_capacity`: the same statements for the
+* `c05_channel_ops_no_deadlock` / `_runs_are_finite` / `_complete` / `_capacity` / `_deadlock_root_cause`: the same statements for the
   model in which every single channel operation is a step (`Model/NetFine.lean`): a process reads its in-ports
   one after the other in any order, holding the items already read, and sends a finished task's outputs
   consumer by consumer, each send blocking on that consumer's channel alone — which is what `receiveOnInPorts`
@@ -313,6 +313,26 @@ theorem c05_channel_ops_capacity {n : Nat} (net : Net n) (N : Nat) (hbal : balan
   exact ⟨hinv.cap u w hu, (hinv.rc u w hu).2.1⟩
 
 open SciVerif.Net SciVerif.NetFine in
+/-- without any assumption on stream lengths, at the granularity of channel operations: a run that ends with an
+unreturned process contains an unreturned process blocked in a send to a consumer that has returned with at least
+`B` of its items unread — F20's abandoned port is the only way to get stuck here as well -/
+theorem c05_channel_ops_deadlock_root_cause {n : Nat} (net : Net n) (hac : acyclic net) (hB : 1 ≤ net.B)
+    (ls : List (FLbl n)) (s : FSt n) (hr : frun net (finit n) ls = some s) (hmax : fstuck net s)
+    (v0 : Fin n) (hv0 : s.term v0 = false) :
+    ∃ v w, v ∈ net.ins w ∧ s.term v = false ∧ s.term w = true ∧ s.r v w + net.B ≤ s.s v w :=
+  fstuck_root_cause net hac hB s (frun_inv0 net ls _ _ (finv0_init net) hr) hmax v0 hv0
+
+open SciVerif.Net SciVerif.NetFine in
+/-- negative (F20) at this granularity: the join returns at its empty in-port, the other source blocks in its
+second send; the premises of the root-cause theorem are satisfiable -/
+theorem c05_channel_ops_unbalanced_deadlocks :
+    (frun (netJoin 3 0 1) (finit 3)
+        [.terminate ⟨1, by omega⟩, .terminate ⟨2, by omega⟩, .create ⟨0, by omega⟩, .send ⟨0, by omega⟩ ⟨2, by omega⟩,
+         .forward ⟨0, by omega⟩, .create ⟨0, by omega⟩, .create ⟨0, by omega⟩]).map
+      (fun s => (fstuckB (netJoin 3 0 1) s, s.term ⟨0, by omega⟩, s.term ⟨2, by omega⟩, s.s ⟨0, by omega⟩ ⟨2, by omega⟩,
+                 s.r ⟨0, by omega⟩ ⟨2, by omega⟩)) = some (true, false, true, 1, 0) := by decide
+
+open SciVerif.Net SciVerif.NetFine in
 /-- non-vacuity: in the join of two sources (B = 1) the reader takes the item of its second in-port first and holds
 it while the first source has not sent anything; the state is reachable, not stuck, and not final -/
 example : (frun (netJoin 2 2 1) (finit 3)
@@ -334,6 +354,8 @@ end SciVerif.C05
 #print axioms SciVerif.C05.c05_channel_ops_complete
 #print axioms SciVerif.C05.c05_channel_ops_capacity
 #print axioms SciVerif.C05.c05_channel_ops_needs_buffer
+#print axioms SciVerif.C05.c05_channel_ops_deadlock_root_cause
+#print axioms SciVerif.C05.c05_channel_ops_unbalanced_deadlocks
 #print axioms SciVerif.C05.c05_network_no_deadlock
 #print axioms SciVerif.C05.c05_network_runs_are_finite
 #print axioms SciVerif.C05.c05_network_complete
